@@ -130,15 +130,20 @@ def vacuity_probe(name):
     res, woven = unit.build(vrs, os.path.join(BUILD, name.split('/')[0]), vacuity=True, canary=False)
     if woven is None:
         return {'unit': name, 'status': 'undecided', 'reason': res.reason}
-    n_probes = woven.count(' assert(false);')
+    n_probes = woven.count('/*vacuity-probe*/')
     unit.run_verus(res, woven, timeout=900, rlimit=5)
-    failing_fns = set()
-    for f in res.failed:
-        if 'assert(false)' in f['clause']:
-            failing_fns.add((f['function'], f['line']))
-    budget_fns = set((b['function'], b['line']) for b in getattr(res, 'budget', []))
-    return {'unit': name, 'probes': n_probes, 'refuted': len(failing_fns), 'gave_up': len(budget_fns),
-            'status': 'ok' if len(failing_fns) + len(budget_fns) >= n_probes and n_probes > 0 else 'suspect'}
+    probe_lines = set(k + 1 for k, ln in enumerate(woven.split('\n')) if '/*vacuity-probe*/' in ln)
+    wl = woven.split('\n')
+    refuted_lines = set(f['line'] for f in res.failed if 'assert(false)' in f['clause'] and f['line'] in probe_lines)
+    gave_up_fns = set(b_['function'] for b_ in getattr(res, 'budget', []))
+    refuted = gave_up = 0
+    for ln in sorted(probe_lines):
+        if ln in refuted_lines:
+            refuted += 1
+        elif unit.enclosing_fn(wl, ln) in gave_up_fns:
+            gave_up += 1
+    return {'unit': name, 'probes': n_probes, 'refuted': refuted, 'gave_up': gave_up,
+            'status': 'ok' if refuted + gave_up >= n_probes and n_probes > 0 else 'suspect'}
 
 
 def obligation_name(f):
